@@ -2,6 +2,18 @@
 // lost signals and spurious releases).
 #include "fb_common.h"
 #include "fiber_cond.h"
+// under TSan the harness-side occupancy counters must not themselves create happens-before edges between owners
+#ifdef VP_TSAN
+#define OCC_ORDER memory_order_relaxed
+#else
+#define OCC_ORDER memory_order_seq_cst
+#endif
+static long pay_a, pay_b;  // plain payload protected only by the user mutex (TSan judges races between vp_payload_* frames)
+__attribute__((noinline)) static void vp_payload_cond_section(int id, int trial_) {
+  if (pay_a != pay_b) vp_violation("C05", "cond:payload-torn", "trial %d: fiber %d owns the user mutex and sees payload %ld/%ld", trial_, id, pay_a, pay_b);
+  pay_a++;
+  pay_b++;
+}
 
 static fiber_mutex_t mu;
 static fiber_cond_t cv;
@@ -14,11 +26,12 @@ static long bc_hist[5];
 static vp_counter_t *c_waits, *c_signals, *c_broadcasts, *c_signal_nowaiter, *c_trials, *c_bc_released;
 
 static void enter_section(fb_slot_t* s, const char* how) {
-  const int prev = atomic_fetch_add(&occ, 1);
+  const int prev = atomic_fetch_add_explicit(&occ, 1, OCC_ORDER);
   if (prev != 0)
     vp_violation("C05", "cond:mutex-not-owned", "trial %d: fiber %d %s while %d other fiber(s) hold the user mutex", trial, s->id, how, prev);
+  vp_payload_cond_section(s->id, trial);
 }
-static void leave_section(void) { atomic_fetch_sub(&occ, 1); }
+static void leave_section(void) { atomic_fetch_sub_explicit(&occ, 1, OCC_ORDER); }
 
 static void* waiter_fiber(void* a) {
   fb_slot_t* s = (fb_slot_t*)a;
